@@ -19,6 +19,13 @@ theorem IENA_unpack_state_independent (t u : Base) (buf : Bytes) (ho : t.lengthE
   repeat' split
   all_goals simp_all
 
+/-- non-vacuity: a used object (other key, sequence and payload) decodes an 18-byte packet successfully -/
+example :
+    let a : Base := { Base.fresh with key := 0x1A, timeusec := 10000000, payload := [5, 0] }
+    let t : Base := { Base.fresh with key := 3, sequence := 9, payload := [1, 2, 3, 4] }
+    ∃ b, (Base.pack a).2 = .ok b ∧ b.length = 18 ∧ (Base.unpack t b).2 = .ok () ∧ (Base.unpack t b).1.payload = [5, 0] :=
+  ⟨_, rfl, rfl, rfl, rfl⟩
+
 theorem IENAM_pack_idempotent (s : MState) : MState.pack (MState.pack s).1 = MState.pack s := by
   cases h : encAllM s.parameters with
   | error e => simp [MState.pack, h]
@@ -45,5 +52,14 @@ theorem IENAM_unpack_state_independent (t u : MState) (buf : Bytes)
       rw [← hb2, hb]
       intro _
       rfl
+
+/-- non-vacuity: an object that already holds a parameter decodes a two-parameter packet (one odd-length dataset
+    with its pad byte, one empty dataset) and ends with exactly those two parameters -/
+example :
+    let a : MState := { MState.fresh with parameters := [⟨1, 2, [0xAA, 0xBB, 0xCC]⟩, ⟨3, 4, []⟩] }
+    let t : MState := { MState.fresh with parameters := [⟨9, 9, [1]⟩] }
+    ∃ b, (MState.pack a).2 = .ok b ∧ b.length = 32 ∧ (MState.unpack t b).2 = .ok () ∧
+      (MState.unpack t b).1.parameters = a.parameters :=
+  ⟨_, rfl, rfl, rfl, rfl⟩
 
 end Acra.Props.C13
